@@ -126,11 +126,7 @@ pub fn check_cell(depth: u8, h: u64, symmetry: bool, part: &mut Part) -> Option<
 
 fn check_out_of_range(depth: u8, part: &mut Part) {
   let nh = n_hash(depth);
-  // interior-looking (i, j) bits with an out-of-range base cell, and border-looking ones
-  let mut bad = vec![nh, nh + 1, nh + 5, (13u64 << (2 * depth as u32)) | 3, (15u64 << (2 * depth as u32)) | (nh / 24), 1u64 << 63, u64::MAX];
-  if depth > 1 {
-    bad.push((12u64 << (2 * depth as u32)) | 12); // i=2, j=2: interior
-  }
+  let bad = out_of_range_hashes(depth);
   for h in bad {
     if h < nh {
       continue;
